@@ -588,9 +588,14 @@ class CModel:
         # implementation stores the callable differently in that case (a defect this check reports)
         self.binding = None
         self.caps = [None, None]
+        # A call has no effect in the model.  Whether it has one in the implementation is part of what is checked, so
+        # "this wrapper object has been called since it was read, while the name was bound / deleted" is kept in the
+        # state key: the search then also explores what follows a call (without it every state reached through a call
+        # would be merged with the state before the call, and a wrapper that changes when called would go unseen).
+        self.called = [(), ()]
 
     def key(self):
-        return (self.binding, tuple(self.caps))
+        return (self.binding, tuple(self.caps), tuple(self.called))
 
     def step(self, op):
         """Returns the expectation: ('ok',) | ('raise', 'KeyError') | ('call', target)."""
@@ -610,8 +615,12 @@ class CModel:
             if self.binding is None:
                 return ('raise', 'KeyError')
             self.caps[op[1]] = self.binding
+            self.called[op[1]] = ()
             return ('ok',)
         if k == 'call':
+            how = 'bound' if self.binding is not None else 'deleted'
+            if how not in self.called[op[1]]:
+                self.called[op[1]] = tuple(sorted(self.called[op[1]] + (how,)))
             return ('call', self.binding if self.binding is not None else self.caps[op[1]])
         raise ValueError(op)
 
@@ -804,6 +813,7 @@ def c_make_expand(bodies, arg_values, with_py):
     def expand(hist):
         out = {'succ': [], 'transitions': 0, 'vset': set(), 'outcomes': set(), 'calls': 0, 'writes': 0}
         env = c_build(hist, bodies)
+        called0 = tuple(env.m.called)
         # calls are applied to the one instance in sequence (every one is compared on its own); every state-changing
         # operation gets a fresh replay of the history
         for s in (0, 1):
@@ -822,6 +832,20 @@ def c_make_expand(bodies, arg_values, with_py):
                 for v in vs:
                     add_v(out, v)
                 out['outcomes'].add(o[:40])
+        # one well-formed call per wrapper as a history step of its own (see CModel.called)
+        for sl in (0, 1):
+            if env.m.caps[sl] is None:
+                continue
+            target = env.m.binding if env.m.binding is not None else env.m.caps[sl]
+            ar = bodies[target[1]][1] if target[0] == 'k' else target[1]
+            how = 'bound' if env.m.binding is not None else 'deleted'
+            if how in called0[sl]:
+                continue
+            t0 = next((t for t in tuples if len(t) == ar), None)
+            if t0 is None:
+                continue
+            e2 = c_build(hist + (('call', sl, t0),), bodies)
+            out['succ'].append((('call', sl, t0), e2.m.key()))
         writes =[('def', i) for i in range(len(bodies)) if env.m.binding != ('k', i)]
         if with_py:
             writes += [('pydef', n) for n in C_PY if (env.m.binding or ())[:2] != ('p', n)]
@@ -1124,8 +1148,8 @@ def run(cfg):
     # part (c)
     bodies = C_BODIES_Q if quick else C_BODIES_T
     ca = bfs.search(c_make_expand(bodies, C_ARG_VALUES_Q if quick else C_ARG_VALUES_T, False), cfg1,
-                    cfg.pick(4, 6), init_key=CModel().key())
-    cb = bfs.search(c_make_expand(C_BODIES_B, C_ARG_VALUES_B, True), cfg1, cfg.pick(4, 9), init_key=CModel().key())
+                    cfg.pick(4, 7), init_key=CModel().key())
+    cb = bfs.search(c_make_expand(C_BODIES_B, C_ARG_VALUES_B, True), cfg1, cfg.pick(6, 9), init_key=CModel().key())
     # thorough: depth 6 closes the model's state space ((bodies+1)^3 states, all reachable in <= 5 operations), so
     # every wrapper call is judged in every state and the last layer finds no new state
 
